@@ -22,6 +22,7 @@ pub struct World {
     pub current: u32,
     pub runner_thread: Option<std::thread::ThreadId>,
     pub in_execution: bool,
+    pub tail_requests: u32,
 }
 
 static WORLD: Mutex<Option<World>> = Mutex::new(None);
@@ -43,6 +44,7 @@ pub fn init(sc: E2Scenario, history_path: String) {
         current: 0,
         runner_thread: None,
         in_execution: false,
+        tail_requests: 0,
     });
 }
 
@@ -194,8 +196,9 @@ pub unsafe extern "C" fn getentropy(buf: *mut u8, len: usize) -> c_int {
         Ctx::Task => {}
     }
 
-    // scheduling point before the device acts
-    shuttle::thread::yield_now();
+    // scheduling point before the device acts (a plain context switch, not a yield: the
+    // yield hint is reserved for code that really spins or polls)
+    shuttle::thread::sleep(std::time::Duration::ZERO);
 
     let task = current_task();
     let (ret, errno) = with(|w| {
@@ -209,6 +212,10 @@ pub unsafe extern "C" fn getentropy(buf: *mut u8, len: usize) -> c_int {
         } else if let Some(t) = &w.sc.tail {
             if w.hist.generous_at_step.is_none() {
                 w.hist.generous_at_step = Some(step);
+            }
+            w.tail_requests += 1;
+            if w.sc.generous_requests > 0 && w.tail_requests > w.sc.generous_requests {
+                w.stop_reason = Some("liveness");
             }
             (Some(t.clone()), "tail")
         } else {
@@ -254,8 +261,13 @@ pub unsafe extern "C" fn getentropy(buf: *mut u8, len: usize) -> c_int {
         r
     });
 
+    if stop_reason() == Some("liveness") {
+        // every response has been a match for a while and the searchers keep asking
+        finish("liveness", None, "entropy requests after the device turned generous");
+    }
+
     // scheduling point after the buffer was filled and before the caller sees it
-    shuttle::thread::yield_now();
+    shuttle::thread::sleep(std::time::Duration::ZERO);
 
     if ret < 0 {
         *libc::__errno_location() = errno;
@@ -318,7 +330,7 @@ impl Scheduler for SimScheduler {
         }
     }
 
-    fn next_task(&mut self, runnable: &[&Task], current: Option<TaskId>, _is_yielding: bool) -> Option<TaskId> {
+    fn next_task(&mut self, runnable: &[&Task], current: Option<TaskId>, is_yielding: bool) -> Option<TaskId> {
         let ids: Vec<usize> = runnable.iter().map(|t| t.id().into()).collect();
         let cur: Option<usize> = current.map(|c| c.into());
         let cur_runnable = cur.map(|c| ids.contains(&c)).unwrap_or(false);
@@ -354,14 +366,17 @@ impl Scheduler for SimScheduler {
             let c = match self.spec.policy.as_str() {
                 "random" => ids[self.rng.usize_below(ids.len())],
                 "sticky" => {
-                    if cur_runnable && self.rng.below(256) < self.spec.param as u64 {
+                    // a task that yields (spin/poll loop) is not kept running
+                    if cur_runnable && !is_yielding && self.rng.below(256) < self.spec.param as u64 {
                         cur.unwrap()
                     } else {
                         ids[self.rng.usize_below(ids.len())]
                     }
                 }
                 "pct" => {
-                    if cur_runnable && self.change_points.contains(&step) {
+                    // priority change points, and every explicit yield, demote the running task:
+                    // without the latter a top-priority poller would starve everyone for ever
+                    if cur_runnable && (is_yielding || self.change_points.contains(&step)) {
                         self.low_water -= 1;
                         let c = cur.unwrap();
                         self.priority(c);
